@@ -548,6 +548,8 @@ func Not(t *Term) *Term { return normalize(&Term{Op: OpUn, Name: "!", Args: []*T
 func SeqElems(t *Term) ([]*Term, bool) {
 	t = StripConv(t)
 	switch t.Op {
+	case OpArray:
+		return t.Args, true // an array value (a literal ranged by value)
 	case OpSlice:
 		if len(t.Args) == 3 && t.Args[1].IsConst("") && t.Args[2].IsConst("") {
 			a := StripConv(t.Args[0])
